@@ -38,8 +38,31 @@ func getTxAnchors(c *core.Ctx, rule string) *txAnchors {
 		return fn
 	}
 	a.mainFn, a.sendReqTo, a.sendRspTo, a.reqDisp = get("PfcpServer", "main"), get("PfcpServer", "sendReqTo"), get("PfcpServer", "sendRspTo"), get("PfcpServer", "reqDispacher")
-	a.txSend, a.txRecv, a.txTimeout, a.txStart = get("TxTransaction", "send"), get("TxTransaction", "recv"), get("TxTransaction", "handleTimeout"), get("TxTransaction", "startTimer")
-	a.rxSend, a.rxRecv, a.rxTimeout, a.rxStart = get("RxTransaction", "send"), get("RxTransaction", "recv"), get("RxTransaction", "handleTimeout"), get("RxTransaction", "startTimer")
+	// the function that arms a transaction's timer: the startTimer method, or (helper inlined) the function
+	// whose time.AfterFunc result is stored into that transaction type's timer field
+	arming := func(typ string) *ssa.Function {
+		if m := c.P.Method(pkgPfcp, typ, "startTimer"); m != nil {
+			if fn := c.P.SSAFn(m); fn != nil {
+				return fn
+			}
+		}
+		timerF := c.P.Field(pkgPfcp, typ, "timer")
+		var found *ssa.Function
+		for _, fn := range c.P.OwnFuncs() {
+			for _, st := range storesToField(fn, timerF) {
+				if cl, ok := st.Val.(*ssa.Call); ok && core.IsPkgFunc(core.Callee(cl), "time", "AfterFunc") {
+					found = fn
+				}
+			}
+		}
+		if found == nil {
+			c.Anchor(rule, pkgPfcp+"."+typ+".startTimer (or a function storing time.AfterFunc into "+typ+".timer)")
+			a.ok = false
+		}
+		return found
+	}
+	a.txSend, a.txRecv, a.txTimeout, a.txStart = get("TxTransaction", "send"), get("TxTransaction", "recv"), get("TxTransaction", "handleTimeout"), arming("TxTransaction")
+	a.rxSend, a.rxRecv, a.rxTimeout, a.rxStart = get("RxTransaction", "send"), get("RxTransaction", "recv"), get("RxTransaction", "handleTimeout"), arming("RxTransaction")
 	a.newTx, a.newRx, a.stopTimers = get("", "NewTxTransaction"), get("", "NewRxTransaction"), get("PfcpServer", "stopTrTimers")
 	p := c.P
 	a.rxTrans, a.txTrans = p.Field(pkgPfcp, "PfcpServer", "rxTrans"), p.Field(pkgPfcp, "PfcpServer", "txTrans")
@@ -388,7 +411,7 @@ func C06(c *core.Ctx) {
 	timerRx := p.Field(pkgPfcp, "RxTransaction", "timer")
 	started := false
 	for _, st := range storesToField(a.newRx, timerRx) {
-		if cl, ok := st.Val.(*ssa.Call); ok && core.Callee(cl) == p.Method(pkgPfcp, "RxTransaction", "startTimer") {
+		if cl, ok := st.Val.(*ssa.Call); ok && (core.StaticFn(cl) == a.rxStart || (a.rxStart == a.newRx && core.IsPkgFunc(core.Callee(cl), "time", "AfterFunc"))) {
 			dom := true
 			core.Instrs(a.newRx, func(in ssa.Instruction) {
 				if r, ok := in.(*ssa.Return); ok && !core.InstrDominates(st, r) {
@@ -504,13 +527,43 @@ func checkTimerCallback(c *core.Ctx, rule string, start *ssa.Function, typ strin
 		c.Check(rule, "timer-armed:"+name, start.Pos(), false, "startTimer arms a time.AfterFunc timer")
 		return
 	}
-	c.Check(rule, "timer-interval:"+name, af.Pos(), core.IsPath(af.Call.Args[0], core.Recv(start), durField), "the timer interval is the transaction's configured interval")
+	// whose interval: the receiver's, or (timer armed inside the constructor) the transaction being built
+	var owner ssa.Value
+	if r := core.Recv(start); r != nil {
+		owner = r
+	}
+	if owner == nil {
+		core.Instrs(start, func(in ssa.Instruction) {
+			if al, ok := in.(*ssa.Alloc); ok && al.Heap {
+				if pt, ok := al.Type().(*types.Pointer); ok {
+					if nn, ok := pt.Elem().(*types.Named); ok && nn.Obj().Name() == typ {
+						owner = al
+					}
+				}
+			}
+		})
+	}
+	c.Check(rule, "timer-interval:"+name, af.Pos(), owner != nil && core.IsPath(af.Call.Args[0], owner, durField), "the timer interval is the transaction's configured interval")
 	mc, ok := af.Call.Args[1].(*ssa.MakeClosure)
 	if !ok {
-		c.Undecided(rule, "timer-callback:"+name, af.Pos(), "callback is not a function literal")
+		c.Undecided(rule, "timer-callback:"+name, af.Pos(), "callback is not a function literal or method value")
 		return
 	}
 	cb := mc.Fn.(*ssa.Function)
+	// a method value (tx.notifyTimeout): judge the method behind the bound-method wrapper
+	if cb.Synthetic != "" {
+		var target *ssa.Function
+		core.Instrs(cb, func(in ssa.Instruction) {
+			if ci, ok := in.(ssa.CallInstruction); ok {
+				if f := core.StaticFn(ci); f != nil && p.IsOwnFn(f) {
+					target = f
+				}
+			}
+		})
+		if target != nil {
+			cb = target
+		}
+	}
 	calls := 0
 	good := false
 	core.Instrs(cb, func(in ssa.Instruction) {
@@ -530,7 +583,7 @@ func checkTimerCallback(c *core.Ctx, rule string, start *ssa.Function, typ strin
 		fmt.Sprintf("the timer callback only posts a timeout event (type %d) for the transaction's own id", trType))
 	// the timer returned is the AfterFunc result
 	core.Instrs(start, func(in ssa.Instruction) {
-		if r, ok := in.(*ssa.Return); ok && len(r.Results) == 1 {
+		if r, ok := in.(*ssa.Return); ok && len(r.Results) == 1 && core.Recv(start) != nil {
 			c.Check(rule, "timer-returned:"+name, r.Pos(), r.Results[0] == ssa.Value(af), "startTimer returns the armed timer")
 		}
 	})
@@ -868,7 +921,7 @@ func C09(c *core.Ctx) {
 	// the first timer is started by send before the write
 	startedInSend := false
 	for _, st := range storesToField(a.txSend, timerTx) {
-		if cl, ok := st.Val.(*ssa.Call); ok && core.Callee(cl) == p.Method(pkgPfcp, "TxTransaction", "startTimer") {
+		if cl, ok := st.Val.(*ssa.Call); ok && (core.StaticFn(cl) == a.txStart || (a.txStart == a.txSend && core.IsPkgFunc(core.Callee(cl), "time", "AfterFunc"))) {
 			for _, w := range socketWrites(a.txSend, a) {
 				if core.InstrDominates(st, w) {
 					startedInSend = true
